@@ -29,9 +29,24 @@ Theorem C04_redo_fuel_sufficient : forall sb t l,
 Proof. exact redo_fuel_sufficient. Qed.
 Print Assumptions C04_redo_fuel_sufficient.
 
-Theorem C04_parse_total : forall sb t bytes, wf_tok t -> exists t' r, parse_ex sb t bytes = PR t' r /\ wf_tok t'.
+(* a call from a well-formed state always produces an outcome; the state stays well formed
+   except in one corner (success reported while a container is still open: a NUL byte inside a
+   comment that follows a complete value), after which the parser must be reset *)
+Theorem C04_parse_total : forall sb t bytes,
+  wf_tok t -> exists t' r, parse_ex sb t bytes = PR t' r /\ (err t' <> TE_success \/ depth t' = 0 -> wf_tok t').
 Proof. exact parse_total. Qed.
 Print Assumptions C04_parse_total.
+
+Theorem C04_new_and_reset_well_formed :
+  (forall d s a v t, tok_new d s a v = Some t -> wf_tok t) /\ (forall t, wf_tok (tok_reset t)).
+Proof. split; [exact tok_new_wf|exact tok_reset_wf]. Qed.
+Print Assumptions C04_new_and_reset_well_formed.
+
+Theorem C04_success_at_depth_pos_witness :
+  exists t t' v, tok_new 32 false false false = Some t /\
+    parse_ex_cstr (fun _ => 0) t [91;49;32;47;42] = PR t' (Some v) /\ v = JInt 1 /\ depth t' = 1.
+Proof. exact success_at_depth_pos_witness. Qed.
+Print Assumptions C04_success_at_depth_pos_witness.
 
 (* reset: the level stack, depth and error of a reset parser are those of a new one ... *)
 Theorem C04_reset_levels_as_new : forall t,
